@@ -51,7 +51,17 @@ def snapshot(d):
                     continue
                 callees.add(t["f"]["path"])
         sig = [types[l["ty"]]["s"] for l in b["locals"][: b["arg_count"] + 1]]
+        import mir as _mir
+
+        if "impl_self" in b:
+            st = _mir.short_ty_of(types, b["impl_self"])
+            qual = "<%s as %s>::%s" % (st, b["impl_trait"].split("::")[-1], b.get("name")) if "impl_trait" in b else "%s::%s" % (st, b.get("name"))
+        elif "in_trait" in b:
+            qual = "%s::%s" % (b["in_trait"].split("::")[-1], b.get("name"))
+        else:
+            qual = b["path"]
         fns[b["path"]] = {
+            "qual": qual,
             "key": b["key"],
             "name": b.get("name"),
             "container": b["path"].rsplit("::", 1)[0] if "::" in b["path"] else "",
@@ -85,6 +95,10 @@ def _idents(snap):
             for f in v["fields"]:
                 out.add(f["name"])
     return out
+
+
+def _last_segments(s):
+    return re.sub(r"(?:[A-Za-z_][A-Za-z0-9_]*::)+([A-Za-z_])", r"\1", s)
 
 
 def _norm_ty(s, type_map):
@@ -160,10 +174,36 @@ def detect(d):
         if not progress:
             break
     tm = out["types"]
+    # ---- moved types: same name and shape, another module (or out of a function body to module level) --------------
+    out["moves"] = {}
+    still_missing = [p for p in ref["adts"] if p not in cur["adts"] and p.rsplit("::", 1)[-1] not in tm.values()]
+    for m in still_missing:
+        mn = m.rsplit("::", 1)[-1]
+        cands = []
+        for c in cur["adts"]:
+            if c in ref["adts"] or c.rsplit("::", 1)[-1] != mn:
+                continue
+            a, b = ref["adts"][m], cur["adts"][c]
+            if a["kind"] != b["kind"] or len(a["variants"]) != len(b["variants"]):
+                continue
+            ok = True
+            for va, vb in zip(a["variants"], b["variants"]):
+                if va["name"] != vb["name"] or len(va["fields"]) != len(vb["fields"]):
+                    ok = False
+                    break
+                for fa, fb in zip(va["fields"], vb["fields"]):
+                    # other items (traits, helper types) may have moved along: compare with paths cut to their last segment
+                    if fa["name"] != fb["name"] or _last_segments(_norm_ty(fb["ty"], tm)) != _last_segments(fa["ty"]):
+                        ok = False
+                        break
+            if ok:
+                cands.append(c)
+        if len(cands) == 1:
+            out["moves"][cands[0]] = m
 
     def cur_adt_path(p):
         # reference path of a current ADT path
-        return _norm_ty(p, tm)
+        return out["moves"].get(p, _norm_ty(p, tm))
 
     # ---- fields and variants ---------------------------------------------------------------------
     for cp, b in cur["adts"].items():
@@ -189,7 +229,11 @@ def detect(d):
                 out.setdefault("variant_ctors", []).append((rp.rsplit("::", 1)[-1], vb["name"], va["name"]))
     # ---- functions -------------------------------------------------------------------------------
     def rpath(p):
-        return _norm_ty(p, tm)
+        p = _norm_ty(p, tm)
+        for c_, m_ in out["moves"].items():
+            if c_ in p:
+                p = p.replace(c_, m_)
+        return p
 
     cur_by_ref = {rpath(p): p for p in cur["fns"]}
     missing = [p for p in ref["fns"] if p not in cur_by_ref]
@@ -220,6 +264,28 @@ def detect(d):
             if j >= 0.34 or len(cands) == 1:
                 taken.add(c)
                 out["fns"].append((c, m, cur["fns"][c]["name"], fm["name"], cur["fns"][c]["key"]))
+    # ---- moved functions: same name, same parameters after the receiver, same return type, another container ----
+    renamed_new = {c for c, m, cn, mn, ck_ in out["fns"]}
+    renamed_old = {m for c, m, cn, mn, ck_ in out["fns"]}
+    for m in sorted(missing):
+        if m in renamed_old:
+            continue
+        fm = ref["fns"][m]
+        cands = []
+        for c in new:
+            if c in taken or c in renamed_new:
+                continue
+            fc = cur["fns"][c]
+            if fc["name"] != fm["name"] or (fc.get("impl_trait") or None) != (fm.get("impl_trait") or None):
+                continue
+            sc = [rpath(x) for x in fc["sig"]]
+            if len(sc) != len(fm["sig"]) or sc[0] != fm["sig"][0] or sc[2:] != fm["sig"][2:]:
+                continue
+            cands.append(c)
+        if len(cands) == 1:
+            c = cands[0]
+            taken.add(c)
+            out["fns"].append((c, m, cur["fns"][c]["name"], fm["name"], cur["fns"][c]["key"]))
     # ---- constants ---------------------------------------------------------------------------------
     out["consts"] = []
     rc, cc = ref.get("consts", {}), cur.get("consts", {})
@@ -245,7 +311,8 @@ def apply(d, rn):
         fn_paths[c] = m
         fn_keys[ckey] = ckey[: len(ckey) - len(cn)] + mn
         const_names[ckey] = mn
-    if not (tm or fm or vm or fn_paths):
+    moves = rn.get("moves", {})
+    if not (tm or fm or vm or fn_paths or moves):
         return 0
     # type renames first, so that enum names in variant paths are reference names already
     type_re = re.compile(r"\b(%s)\b" % "|".join(re.escape(x) for x in tm)) if tm else None
@@ -261,6 +328,9 @@ def apply(d, rn):
                 s = p_old + s[len(p_new) :]
         if type_re is not None:
             s = type_re.sub(lambda mo: tm[mo.group(1)], s)
+        for c_, m_ in moves.items():
+            if c_ in s:
+                s = s.replace(c_, m_)
         for enum, vnew, vold in rn.get("variant_ctors", []):
             # the variant used as a constructor function / in a printed path: Enum::Variant, Enum::<T>::Variant
             if vnew in s and enum in s:
@@ -305,6 +375,15 @@ def apply(d, rn):
             for v in x:
                 walk(v)
 
+    ref = reference().get(config_key(d.get("cfg", []))) or {}
+    moved_quals = {}
+    for c, m, cn, mn, ckey in rn["fns"]:
+        rq = (ref.get("fns", {}).get(m) or {}).get("qual")
+        if rq and c.rsplit("::", 1)[0] != m.rsplit("::", 1)[0]:
+            moved_quals[ckey] = rq
+    for b in d["bodies"]:
+        if b["key"] in moved_quals:
+            b["qual_override"] = moved_quals[b["key"]]
     walk(d["bodies"])
     walk(d["impls"])
     walk(d["consts"])
@@ -339,6 +418,8 @@ def normalise(d):
         listing.append("field %s -> %s" % (new, old))
     for new, old in rn["variants"].items():
         listing.append("variant %s -> %s" % (new, old))
+    for c_, m_ in rn.get("moves", {}).items():
+        listing.append("moved type %s -> %s" % (c_, m_))
     for c, m, cn, mn, ckey in rn["fns"]:
         listing.append("fn %s -> %s" % (c, m))
     for c, m, ckey, cn, mn in rn.get("consts", []):
